@@ -302,7 +302,7 @@ impl Ctx {
         Ok(format!("{} {} {}", self.term(&m["subject"])?, self.pterm(&m["predicate"])?, self.term(&m["object"])?))
     }
 
-    fn prop_matcher(&self, v: &Value) -> R<String> {
+    pub fn prop_matcher(&self, v: &Value) -> R<String> {
         let (tag, p) = variant(v)?;
         Ok(match tag {
             "Id" => format!("qi {}", self.scalar(p)?),
